@@ -45,6 +45,15 @@ CLAIMS = {
  "C15": dict(cat="proof", tech="Lean 4 proof (frame + locality lemmas of step, induction over arbitrary interleavings) + interleaved multi-handle correspondence",
    text="Kernel-checked: for any two families of API calls over disjoint handles and ANY interleaving of their steps, each family's outputs equal those of its isolated run (the schedule quantifier at the granularity of atomic API calls). Partial: real thread schedules and the std feature-detection cache are runtime behaviour the model cannot exhibit; the source-level absence of global state is checked by the facts translator when C15's static half is built. " + CORR,
    note="Trusted: as C02; threads are not modelled (API calls are atomic in the model).", ref="4/C15"),
+ "C16": dict(cat="translation_validation", tech="source-facts translator (syn, regenerated from /repo/src every run) + Lean 4 kernel-decided theorems over the fact table + forbid(unsafe_code) compile check",
+   text="The property is about program text under every cfg combination, so the model is the fact table regenerated from the working tree on every run (all cfg branches, macro bodies as token trees). Kernel-decided theorems: no unsafe token, no lint override, no unsafe attribute / foreign block / raw pointer in the seven portable-path files; lib.rs denies unsafe_code; module and macro closure of what PortableHash executes; no #[path] redirection. Supporting check: the same files compile under #![forbid(unsafe_code)] with and without std. A violation is reported with the offending source span as the replay.",
+   note="Trusted: the syn-based translator (facts, not judgement), rustc's lint for the compile check, Lean kernel (decide +kernel). Allow-lists in the theorems are strict: a harmless new lint attribute breaks the theorem and is reported as no-failing-input-found unless it concerns unsafe_code.", ref="4/C16"),
+ "C17": dict(cat="translation_validation", tech="source-facts translator + Lean 4 kernel-decided theorems (only LE conversions, no target-sensitive construct) + the real portable code executed under Miri on big-endian and 32-bit targets against the one target-independent Lean model",
+   text="Facts half (kernel-decided on the regenerated table): every byte<->integer conversion on the portable path is from/to_le_bytes; no cfg(target_endian/pointer_width), usize::MAX/BITS, isize, raw pointer; integer casts are the six inventoried ones. Dynamic half: the working-tree portable code runs natively (LE/64) and under Miri on s390x (BE/64), powerpc (BE/32), i686 (LE/32) on one op file (hashes, checkpoints, restores incl. huge count fields) and every output must equal the single Lean model, which has neither endianness nor word size.",
+   note="Trusted: translator; Miri as interpreter of the foreign targets (not hardware); model/code correspondence. A Miri target whose sysroot is unavailable is recorded as not executed, never an alarm.", ref="4/C17"),
+ "C18": dict(cat="other", tech="source-facts theorems in Lean 4 (no allocation-capable construct outside cfg(test)) + allocation-count observable of the correspondence (counting global allocator) + allocator-symbol check of the no_std rlib",
+   text="A functional model has no heap; what decides the property: kernel-decided theorems over the regenerated source facts (no alloc-capable name, no alloc crate, std only for io::Write), a counting #[global_allocator] around every real operation (construct, append 0 B..256 KiB quick / 4 MiB thorough, write, finish, clone, checkpoint, restore, Debug into a stack sink, finalize) in std and no_std builds on all native back ends - every op must report 0 - while the same ops are diffed against the Lean model, and the no_std rlib must reference no allocator symbol.",
+   note="Partial by nature: allocation is runtime behaviour; NEON/Wasm back ends are covered by the source facts only. Trusted: translator, the counting allocator, nm.", ref="4/C18"),
 }
 
 def main():
